@@ -501,8 +501,9 @@ pub fn check(cfg: &CheckCfg) -> i32 {
     let opts = ExecOpts { open_findings: findings.clone(), ..Default::default() };
     let indices: Vec<u64> = match &cfg.only {
         Some(v) => v.clone(),
-        None => (0..cfg.runs).collect(),
+        None => (0..cfg.runs).chain((0..crate::plan::regress().len() as u64).map(|k| crate::plan::REG_BASE + k)).collect(),
     };
+    let recorded_histories = if cfg.only.is_none() { crate::plan::regress().len() } else { 0 };
     let (AggOut(mut agg), suspects) = run_batch(cfg, indices);
     let wall_runs = t0.elapsed().as_secs_f64();
 
@@ -744,6 +745,8 @@ pub fn check(cfg: &CheckCfg) -> i32 {
             "rule": rule,
             "samples": samples,
             "simulated_runs": agg.results,
+            "recorded_histories_replayed": recorded_histories,
+            "recorded_histories_are": "the minimised replay files of every repaired defect (findings/) and of every detection of an independently written breaking change (seeded/*/replays/), corpus/regress_ssim.json; executed as explicit runs next to the seeded ones, every invariant evaluated",
             "runs_per_hour": (agg.results as f64 / wall_runs.max(0.001) * 3600.0) as u64,
             "simulated_time_events": agg.stats.events,
             "builds_in_sessions": agg.stats.builds,
